@@ -148,7 +148,8 @@ pub fn check_state(sim: &mut Sim, snap: &VerifSnapshot, m: Mon, ex: &mut Exercis
                 v.push(viol("C17", "running-set", format!("{} running-set {} vs driver {}", id, running.contains(id), should_run)));
             }
             let should_failed = matches!(sim.res[j], Res::Failed | Res::Changed);
-            if failed.contains(id) != should_failed {
+            // a job that was running at an abort may be reported failed or aborted
+            if sim.res[j] != Res::AbortedRunning && failed.contains(id) != should_failed {
                 v.push(viol("C17", "failed-set", format!("{} failed-set {} vs driver {} (state {:?})", id, failed.contains(id), should_failed, st(j))));
             }
             if sim.res[j] == Res::Ok && !is_success_state(st(j)) {
@@ -377,8 +378,10 @@ pub fn terminal_checks(sim: &mut Sim, snap: &VerifSnapshot, m: Mon, ex: &mut Exe
     let cur_rec: Vec<Option<String>> = (0..n)
         .map(|j| match disp[j] {
             Disp::Ok => sim.rec[j].clone(),
-            Disp::Skipped => cfg.hist.get(&g.jobs[j].id).cloned(),
-            _ => None,
+            Disp::Failed | Disp::AbortedRunning => None,
+            // not executed: whatever a consumer saw of it is its recorded output (a validly
+            // skipped Output can still be turned upstream-failed later)
+            _ => cfg.hist.get(&g.jobs[j].id).cloned(),
         })
         .collect();
     let mut blocked = vec![false; n];
